@@ -324,11 +324,12 @@ theorem C08_first_line_replace_new {c : HdrCfg} {info : Extracted} {t out sb : T
     the marker, so the text above is not blank and the shebang loop does nothing); or the old block stands at the
     top and the marker line is *inside* it (`#!/bin/sh` directly followed by `# SPDX-…` in the Python style) —
     then the loop picks the first marker the block starts with, which is `sb`, and `sbl` is the block's leading
-    marker lines, moved out of the block and kept first.  (`NoExoticBreaks`: with a form feed inside the block
-    the marker lines moved out are not a substring of the text — the break is rewritten to `\n`.) -/
+    marker lines, moved out of the block and kept first.  (`NoExoticBreaks` is needed in the second situation only,
+    `b0 = ""`: with a form feed inside the block the marker lines moved out are not a substring of the text — the
+    break is rewritten to `\n`; see `C08_splice_replace_general` for the line-level statement.) -/
 theorem C08_first_line_replace_old {c : HdrCfg} {info : Extracted} {t out sb b0 h0 a0 : Text}
     (hs : c.style ∈ Generated.styles) (hstyle : (c.style.name == "EmptyCommentStyle") = false)
-    (hno : NoExoticBreaks t) (h : findAndReplaceHeader c info t = .ok out)
+    (hno : b0 = [] → NoExoticBreaks t) (h : findAndReplaceHeader c info t = .ok out)
     (hsome : findFirstSpdxComment c t = some (b0, h0, a0))
     (hf : c.style.shebangs.find? (startsWith t ·) = some sb) :
     ∃ sbl rest, t = sbl ++ rest ∧ sb <+: sbl ∧ (rstrip sbl ++ ['\n', '\n']) <+: out := by
@@ -351,7 +352,7 @@ theorem C08_first_line_replace {c : HdrCfg} {info : Extracted} {t out sb : Text}
   | none => exact C08_first_line_replace_new hs hstyle h hfound hf
   | some x =>
     obtain ⟨b0, h0, a0⟩ := x
-    exact C08_first_line_replace_old hs hstyle hno h hfound hf
+    exact C08_first_line_replace_old hs hstyle (fun _ => hno) h hfound hf
 
 /-! ### non-vacuity: the hypotheses are satisfiable, the relation is not trivial
 
